@@ -59,11 +59,12 @@ const (
 	SecElifCall        // if VB<r> { H.Y } else if H.C(r,p) { H.Y }  an else-if condition whose evaluation fails (panicking call)
 	SecForAcc          // ac = 0; for fi = 0; fi < 3; fi += 1 { ac = ac + 1; H.Y }; H.Acc(r, ac)   a counting loop with a scheduling point in its body
 	SecApiSet          // H.ApiIs(r, QA); QA = Req.ID; H.Y       reads, then assigns, a by-value entry of the pool's api map (the assignment may fail)
+	SecRangeGrow       // forRange gk := Req.Sl { Req.Grow(); H.Y }   a loop over a slice that its own body keeps growing
 	SecOptName         // H.OptSet(r); ov = r+300                  a plain name that some calls inject (then it is shared) and others do not (then it is a local)
 	numSecKinds
 )
 
-var secNames = [...]string{"Y", "Call", "AsgCall", "AsgKind", "Div", "Idx", "Nil", "Unknown", "Arg", "IfKind", "IfIdx", "IfNil", "Elif", "ForKind", "ForStep", "Unb", "UnbCont", "Conc", "Local", "Reader", "Stop", "ShW", "ShR", "Upd", "Echo", "Opt", "IfCall", "ForRange", "MapIdx", "SetKind", "SetNil", "RangeKey", "ThreeNil", "IfThreeNil", "ArgCount", "NilMapSet", "FuncCall", "IfFunc", "ThreeSet", "LocObj", "LocObjReader", "LocAlias", "FnArgKind", "FnArgCount", "LocStruct", "ElifCall", "ForAcc", "ApiSet", "OptName"}
+var secNames = [...]string{"Y", "Call", "AsgCall", "AsgKind", "Div", "Idx", "Nil", "Unknown", "Arg", "IfKind", "IfIdx", "IfNil", "Elif", "ForKind", "ForStep", "Unb", "UnbCont", "Conc", "Local", "Reader", "Stop", "ShW", "ShR", "Upd", "Echo", "Opt", "IfCall", "ForRange", "MapIdx", "SetKind", "SetNil", "RangeKey", "ThreeNil", "IfThreeNil", "ArgCount", "NilMapSet", "FuncCall", "IfFunc", "ThreeSet", "LocObj", "LocObjReader", "LocAlias", "FnArgKind", "FnArgCount", "LocStruct", "ElifCall", "ForAcc", "ApiSet", "RangeGrow", "OptName"}
 
 // FaultCapable reports whether a section hosts a fault point.
 func FaultCapable(k int) bool {
@@ -143,7 +144,7 @@ func (r *RuleDef) YieldKs() []int {
 		case SecY:
 			ks = append(ks, yk)
 			yk++
-		case SecRangeKey, SecLocObj, SecLocAlias, SecLocStruct, SecForAcc, SecApiSet:
+		case SecRangeKey, SecLocObj, SecLocAlias, SecLocStruct, SecForAcc, SecApiSet, SecRangeGrow:
 			ks = append(ks, yk)
 			yk++
 		case SecElifCall:
@@ -425,6 +426,9 @@ func (r *RuleDef) Render() string {
 			yk++
 		case SecApiSet:
 			fmt.Fprintf(&b, "H.ApiIs(%d, QA)\nH.M(%d,%d)\nQA = Req.ID\nH.Y(%d,%d)\n", id, id, p, id, yk)
+			yk++
+		case SecRangeGrow:
+			fmt.Fprintf(&b, "forRange gk%d := Req.Sl {\nReq.Grow()\nH.Y(%d,%d)\n}\n", p, id, yk)
 			yk++
 		case SecFnArgKind:
 			fmt.Fprintf(&b, "H.B(%d,%d)\nfa(%d, VS%d)\n", id, p, id, id)
